@@ -71,10 +71,12 @@ pub fn exec(case: &Value) -> Vec<Value> {
                 if mode == "word" {
                     for q in case["queries"].as_array().cloned().unwrap_or_default() {
                         let qs = line_of(&q);
-                        match guard(|| d.get_closest(&qs, DictionaryDistanceMeasure::EditDistance)) {
-                            Ok(Some((term, freq, _))) => closest.push(json!({"q": q, "found": true, "t": token_ids(&term, &mode), "f": freq})),
-                            Ok(None) => closest.push(json!({"q": q, "found": false, "t": [], "f": 0})),
-                            Err(m) => { if st == "ok" { st = format!("panic:get_closest:{m}"); } }
+                        for (measure, normalized) in [(DictionaryDistanceMeasure::EditDistance, false), (DictionaryDistanceMeasure::NormalizedEditDistance, true)] {
+                            match guard(|| d.get_closest(&qs, measure)) {
+                                Ok(Some((term, freq, _))) => closest.push(json!({"q": q, "norm": normalized, "found": true, "t": token_ids(&term, &mode), "f": freq})),
+                                Ok(None) => closest.push(json!({"q": q, "norm": normalized, "found": false, "t": [], "f": 0})),
+                                Err(m) => { if st == "ok" { st = format!("panic:get_closest:{m}"); } }
+                            }
                         }
                     }
                 }
@@ -94,14 +96,17 @@ pub fn exec(case: &Value) -> Vec<Value> {
 pub fn gen(seed: u64, n: usize) -> Vec<Value> {
     let mut rng = ChaCha8Rng::seed_from_u64(seed);
     (0..n)
-        .map(|_| {
-            let nl = rng.random_range(0..=8);
+        .enumerate()
+        .map(|(k, _)| {
+            // one case in fifty is a corpus of several hundred lines: with a handful of lines the first worker thread has
+            // drained the file before the others start, so nothing is ever merged across workers
+            let nl = if k % 50 == 7 { rng.random_range(300..=600) } else { rng.random_range(0..=8) };
             let lines: Vec<Vec<u64>> = (0..nl)
                 .map(|_| (0..rng.random_range(0..=12)).map(|_| [1u64, 1, 2, 2, 3, 3, 4, 5, 6][rng.random_range(0..9)]).collect())
                 .collect();
             let queries: Vec<Vec<u64>> = (0..3).map(|_| (0..rng.random_range(0..=4)).map(|_| rng.random_range(2..=4u64)).collect()).collect();
             let ms = [-1i64, 0, 1, 2, 3, 5, 50][rng.random_range(0..7)];
-            let mq = [-1i64, -1, 0, 1, 2, 5][rng.random_range(0..6)];
+            let mq = if nl > 8 { [-1i64, 250][rng.random_range(0..2)] } else { [-1i64, -1, 0, 1, 2, 5][rng.random_range(0..6)] };
             let mode = ["word", "char1", "char3"][rng.random_range(0..3)];
             json!({"lines": lines, "max_size": ms, "max_seq": mq, "mode": mode, "threads": [0, 1, 2, 4], "split": rng.random_range(0..=nl), "queries": queries})
         })
